@@ -56,7 +56,7 @@ Qed.
 
 (* ---------------------------------------------------------------- multi_demux *)
 Theorem multi_demux rs : rs <> [] -> multi_data_size rs < 65536 ->
-  split_multi (Some (multi_data rs)) = ROk rs.
+  split_multi (multi_data rs) = ROk rs.
 Proof.
   intros Hne Hsz. unfold multi_data_size in Hsz. unfold split_multi, multi_data.
   set (n := length rs) in *. assert (Hn : (0 < n)%nat) by (destruct rs; [congruence|cbn; lia]).
@@ -69,10 +69,7 @@ Proof.
                 = multi_offsets (2 + 2 * Z.of_nat n) rs).
   { unfold slice. cbn [skipn]. replace (2 + 2 * n - 2)%nat with (length (multi_offsets (2 + 2 * Z.of_nat n) rs)) by (rewrite multi_offsets_length; lia).
     apply firstn_app_exact. }
-  rewrite Hod.
-  destruct (multi_offsets (2 + 2 * Z.of_nat n) rs) as [|x q] eqn:Eo.
-  { pose proof (multi_offsets_length (2 + 2 * Z.of_nat n) rs) as Hl. rewrite Eo in Hl. cbn in Hl. lia. }
-  rewrite <- Eo. rewrite decode_offsets_built by lia.
+  rewrite Hod. rewrite decode_offsets_built by lia.
   f_equal.
   pose proof (reply_slices_built ([Z.of_nat n mod 256; (Z.of_nat n / 256) mod 256] ++ multi_offsets (2 + 2 * Z.of_nat n) rs) rs Hne) as H.
   rewrite app_length, multi_offsets_length in H. cbn [length] in H.
@@ -80,14 +77,14 @@ Proof.
   rewrite <- app_assoc in H. exact H.
 Qed.
 
-(* the same through the whole frame: 50 leading bytes (encapsulation header, CPF items, reply
-   service with the reply bit, general status) followed by the reply data *)
+(* the same through the whole frame: 50 leading bytes (encapsulation header with status 0, CPF
+   items, reply service with the reply bit, general status) followed by the reply data *)
 Theorem multi_demux_frame hdr rs reqs : length hdr = 50%nat -> bytes_ok hdr = true ->
-  (exists s, nth_error hdr 46 = Some s /\ 128 <= s) ->
+  u32_at 8 hdr = Some 0 -> (exists s, nth_error hdr 46 = Some s /\ 128 <= s) ->
   rs <> [] -> multi_data_size rs < 65536 -> bytes_ok (multi_data rs) = true ->
-  exists r, parse_multi reqs (hdr ++ multi_data rs) = ROk (r, zip_sub rs reqs).
+  parse_multi reqs (hdr ++ multi_data rs) = (parse_unit (hdr ++ multi_data rs), zip_sub rs reqs).
 Proof.
-  intros Hl Hok (s & Hs & Hs128) Hne Hsz Hokd.
+  intros Hl Hok He (s & Hs & Hs128) Hne Hsz Hokd.
   set (raw := hdr ++ multi_data rs).
   assert (Hokr : bytes_ok raw = true) by (unfold raw; rewrite bytes_ok_app, Hok, Hokd; reflexivity).
   unfold parse_multi, parse_unit.
@@ -95,10 +92,15 @@ Proof.
   assert (H46 : nth_error raw 46 = Some s) by (unfold raw; rewrite nth_error_app1; [exact Hs|lia]).
   assert (exists g, nth_error raw 48 = Some g) as [g H48].
   { destruct (nth_error raw 48) eqn:E; [eauto|]. apply nth_error_None in E. unfold raw in E. rewrite app_length in E. lia. }
+  assert (He' : u32_at 8 raw = Some 0).
+  { unfold u32_at, byte_at in He |- *. unfold raw. rewrite !nth_error_app1 by lia. exact He. }
   rewrite H46, H48 in P5. replace (128 <=? s) with true in P5 by lia.
-  destruct P5 as (Q1 & Q2 & Q3 & Q4). rewrite Q3.
+  destruct P5 as (Q1 & Q2 & Q3 & Q4). rewrite He' in P4, Q4. cbn [option_map is_none] in P4, Q4.
+  rewrite Q4, P4, Q3. cbn [orb negb opt_is].
   replace (skipn 50 raw) with (multi_data rs) by (unfold raw; rewrite <- Hl; now rewrite skipn_app_exact).
-  eexists. pose proof (multi_demux rs Hne Hsz) as Hm. unfold bytes in Hm. rewrite Hm. reflexivity.
+  pose proof (multi_demux rs Hne Hsz) as Hm.
+  assert (Hcons : exists a q, multi_data rs = a :: q) by (unfold multi_data; rewrite le_enc2; cbn [app]; eauto).
+  destruct Hcons as (a & q & Hc). rewrite Hc in *. unfold bytes in *. rewrite Hm. reflexivity.
 Qed.
 
 (* ---------------------------------------------------------------- per-service classification *)
@@ -224,30 +226,36 @@ Proof.
   - destruct H as [<-|H]; [now apply bytes_ok_slice|now apply IH].
 Qed.
 
-(* the words a valid sub-response was computed from are the words the Spec reads *)
+(* the words a valid sub-response was computed from are the words the Spec reads, and service
+   replies are split only under encapsulation status 0 *)
 Theorem multi_sub_words_of_valid reqs raw r subs i s : bytes_ok raw = true ->
-  parse_multi reqs raw = ROk (r, subs) -> nth_error subs i = Some s -> is_valid KUnit (s_r s) = true ->
-  exists w, multi_sub_words raw i = Some w /\ sub_words_ok w = true.
+  parse_multi reqs raw = (r, subs) -> nth_error subs i = Some s -> is_valid KUnit (s_r s) = true ->
+  multi_sub_success raw i = true.
 Proof.
   intros Hok Hp Hi Hv. unfold parse_multi in Hp.
-  destruct (split_multi (r_data (parse_unit raw))) as [ds|x m] eqn:Es; [|discriminate].
-  injection Hp as <- <-.
-  (* the reply data is raw[50:] *)
+  destruct (parse_cip_spec 46 48 50 raw Hok) as (_ & _ & _ & P4 & P5). fold (parse_unit raw) in P4, P5.
+  destruct (is_some (r_error (parse_unit raw)) || negb (opt_is (r_command_status (parse_unit raw)) SUCCESS)) eqn:Eg.
+  { injection Hp as <- <-. destruct i; discriminate. }
+  apply orb_false_iff in Eg as [_ Ecs]. apply negb_false_iff in Ecs.
+  (* encapsulation status 0 *)
+  assert (Hen : encap_status raw = Some 0).
+  { unfold encap_status. rewrite P4 in Ecs. destruct (u32_at 8 raw) as [e|] eqn:Ee; [|discriminate].
+    cbn [option_map opt_is] in Ecs. unfold SUCCESS in Ecs. rewrite (to_signed4_zero e (u32_range 8 raw e Hok Ee)) in Ecs. f_equal. lia. }
   assert (Hdata : r_data (parse_unit raw) = None \/ r_data (parse_unit raw) = Some (skipn 50 raw)).
-  { destruct (parse_cip_spec 46 48 50 raw Hok) as (_ & _ & _ & _ & P5). fold (parse_unit raw) in P5.
-    destruct (nth_error raw 46) as [sv|]; [destruct (nth_error raw 48) as [g|]|]; try (left; apply P5).
+  { destruct (nth_error raw 46) as [sv|]; [destruct (nth_error raw 48) as [g|]|]; try (left; apply P5).
     destruct (128 <=? sv); [right|left]; apply P5. }
-  destruct Hdata as [Hd|Hd]; rewrite Hd in Es; cbn [split_multi] in Es.
-  { unfold decode_elem_none in Es. discriminate. }
-  set (data := skipn 50 raw) in *.
-  assert (Hokd : bytes_ok data = true) by (apply bytes_ok_skipn, Hok).
+  destruct Hdata as [Hd|Hd]; rewrite Hd in Hp.
+  { injection Hp as <- <-. destruct i; discriminate. }
+  assert (Hokd0 : bytes_ok (skipn 50 raw) = true) by (apply bytes_ok_skipn, Hok).
+  destruct (skipn 50 raw) as [|x0 q0] eqn:Edata; [injection Hp as <- <-; destruct i; discriminate|].
+  set (data := x0 :: q0) in *. assert (Hokd : bytes_ok data = true) by exact Hokd0.
+  destruct (split_multi data) as [ds|x m] eqn:Es; [|injection Hp as <- <-; destruct i; discriminate].
+  injection Hp as <- <-. unfold split_multi in Es.
   destruct (decode_elem UINT_t data) as [num|x m] eqn:En; [|discriminate].
-  (* the count *)
   assert (Hnum : u16_at 0 data = Some num).
   { unfold decode_elem in En. rewrite UINT_eq in En. cbn [ety_size] in En.
-    rewrite u16_at_skipn. cbn [skipn]. destruct data as [|a [|b q]]; cbn [firstn length Nat.ltb Nat.leb] in En; try discriminate.
+    rewrite u16_at_skipn. cbn [skipn]. clearbody data. destruct data as [|a [|b q]]; cbn [firstn length Nat.ltb Nat.leb] in En; try discriminate.
     injection En as <-. unfold elem_value. cbn [ety_signed ety_size le_dec firstn]. f_equal. lia. }
-  destruct (slice 2 (2 + 2 * Z.to_nat num) data) as [|x0 q0] eqn:Eod; [discriminate|]. rewrite <- Eod in Es.
   destruct (decode_offsets (slice 2 (2 + 2 * Z.to_nat num) data)) as [offs|x m] eqn:Eo; [|discriminate].
   injection Es as <-.
   destruct (zip_sub_nth _ _ _ _ Hi) as (d & q & Hd1 & Hq & ->).
@@ -258,7 +266,6 @@ Proof.
   unfold sub_success, byte_at in Hss.
   destruct (nth_error d 0) as [sv|] eqn:E0; [|discriminate]. destruct (nth_error d 2) as [g|] eqn:E2; [|discriminate].
   pose proof (Hj 0%nat sv E0) as H0. pose proof (Hj 2%nat g E2) as H2.
-  (* the offset entry lies inside the table of [num] entries *)
   assert (Hu2 : u16_at (2 + 2 * i) data = Some o /\ Z.of_nat i < num).
   { unfold u16_at, byte_at in Hu. destruct (nth_error (slice 2 (2 + 2 * Z.to_nat num) data) (2 * i)) as [a|] eqn:Ea; [|discriminate].
     destruct (nth_error (slice 2 (2 + 2 * Z.to_nat num) data) (2 * i + 1)) as [b|] eqn:Eb; [|discriminate].
@@ -268,12 +275,14 @@ Proof.
     unfold u16_at, byte_at. replace (2 + 2 * i + 1)%nat with (2 + (2 * i + 1))%nat by lia. rewrite Ea, Eb.
     split; [exact Hu|]. pose proof (u16_range 0 data num Hokd Hnum). lia. }
   destruct Hu2 as [Hu2 Hlt].
+  unfold multi_sub_success. rewrite Hen.
   unfold multi_sub_words, multi_count, multi_offset, multi_base, byte_at.
-  fold data. unfold data in Hnum, Hu2, H0, H2. rewrite u16_at_shift in Hnum, Hu2. rewrite nth_error_skipn_add in H0, H2.
+  clearbody data. rewrite <- Edata in Hnum, Hu2, H0, H2.
+  rewrite u16_at_shift in Hnum, Hu2. rewrite nth_error_skipn_add in H0, H2.
   replace (50 + 0)%nat with 50%nat in Hnum by lia. rewrite Hnum.
   replace (50 + 2 + 2 * i)%nat with (50 + (2 + 2 * i))%nat by lia. rewrite Hu2.
   replace (Z.of_nat i <? num) with true by lia.
   replace (50 + Z.to_nat o)%nat with (50 + (Z.to_nat o + 0))%nat by lia. rewrite H0.
   replace (50 + (Z.to_nat o + 0) + 2)%nat with (50 + (Z.to_nat o + 2))%nat by lia. rewrite H2.
-  exists (sv, g). split; [reflexivity|exact Hss].
+  cbn [Z.eqb andb]. exact Hss.
 Qed.
